@@ -59,12 +59,12 @@ ASSUME = ['mc/ref/lpexact.py (exact two-phase simplex) and mc/ref/pwl.py (epigra
           'than 1e-4 (otherwise nothing depends on it); multipliers are not compared between configurations (dual '
           'uniqueness is not decided), each is checked through the dual function instead',
           'a variable occurrence multiplied by the number 0 (0*x + 1 <= c) does not make x a variable of the problem']
-BOUNDS = {'quick': '15 objective forms x (23 single constraint forms + 69 ordered pairs (second = first + 1, 4, 9 mod 23)) '
-                   'and 4 objective forms x 23 ordered triples (i, i+2, i+7 mod 23); 2 data variants per form; '
+BOUNDS = {'quick': '15 objective forms x (24 single constraint forms + 72 ordered pairs (second = first + 1, 4, 9 mod 24)) '
+                   'and 4 objective forms x 24 ordered triples (i, i+2, i+7 mod 24); 2 data variants per form; '
                    '4 configurations per problem (9.4e3 problems, 3.8e4 solves)',
-          'thorough': '15 objective forms x (23 singles + all 529 ordered pairs) with 3 data variants per form (pairs: '
+          'thorough': '15 objective forms x (24 singles + all 576 ordered pairs) with 3 data variants per form (pairs: '
                       '2 variants of the objective), 15 objective forms x 44 ordered triples ((i, i+2, i+7), (i, i+5, i+11) '
-                      'mod 23) with 2 variants per form; 4 configurations per problem (1.25e5 problems, 5e5 solves)'}
+                      'mod 24) with 2 variants per form; 4 configurations per problem (1.25e5 problems, 5e5 solves)'}
 
 TOLF = 1e-6      # feasibility (feastol 1e-7 relative to the data)
 TOLV = 5e-6      # optimal value: the default solver stops at gap <= max(abstol 1e-7, reltol 1e-6 |p|) with residuals 1e-7,
@@ -173,6 +173,9 @@ CON = [
      lambda c: [['sum', _phi(Y)], '<=', C(c)]),
     ('bsum', [(1, 2, 1), (-1, 1, 3), (2, 3, 2)],
      lambda a, c0, c1: [['+', ['sum', Y], ['*', a, X]], '<=', CM(c0, c1)]),
+    # a scalar affine function of the vector variable times a constant column (an outer-product coefficient)
+    ('dotcol', [(1, 2, 1, -1, 3, 2), (2, -1, 2, 1, 4, 1), (-1, 1, 1, 2, 2, 5)],
+     lambda a, b, c0, c1, h0, h1: [['*c', ['+', ['dot', [a, b], Y], X], [c0, c1]], '<=', CM(h0, h1)]),
     # a scalar constraint whose linear pieces have different lengths (x: 1 row, y: 2 rows)
     ('maxs', [(1,), (2,), (0,)],
      lambda c: [['max', X, ['vmax', Y]], '<=', C(c)]),
@@ -256,6 +259,8 @@ def _build(e, V):
         return abs(_build(e[1], V))
     if t == 'vmax':
         return mmax(_build(e[1], V))
+    if t == '*c':
+        return _build(e[1], V) * matrix([float(v) for v in e[2]])       # scalar affine function times a constant column
     if t == 'nsmin':
         from cvxopt.modeling import min as mmin
         return e[1] * msum(mmin(_build(e[2], V), _build(e[3], V)))      # negative multiple of a sum of minima
